@@ -106,6 +106,10 @@ func lookupTimingScenarios() []*scen {
 		{Name: "L8 NewUpdater without deadline behind a LookupSecret with a 10m deadline, service answers or hangs", Declared: []string{"d"}, UseTime: true, Horizon: m16,
 			OutcomesFor: map[string][]string{"u": {"ok", "hang"}}, CtxFor: map[string]string{"a": "10m"},
 			Threads: map[string][]string{"a": {"lookup:u"}, "b": {"upd:u", "updget:u"}}},
+		{Name: "L9 one caller without deadline, the service fails with an error that looks like a timeout", Declared: []string{"d"}, UseTime: true, Horizon: m16,
+			OutcomesFor: map[string][]string{"u": {"fail"}}, CtxLikeErr: true, Threads: map[string][]string{"a": {"lookup:u"}}},
+		{Name: "L10 two callers, the service fails with an error that looks like a timeout", Declared: []string{"d"}, UseTime: true, Horizon: m16,
+			OutcomesFor: map[string][]string{"u": {"fail"}}, CtxLikeErr: true, Threads: map[string][]string{"a": {"lookup:u"}, "b": {"lookup:u"}}},
 		{Name: "L6 three callers (none, 1s, cancelled), service answers or hangs", Declared: []string{"d"}, UseTime: true, Horizon: m16,
 			OutcomesFor: map[string][]string{"u": {"ok", "hang"}}, CtxFor: map[string]string{"b": "1s", "c": "cancel"}, Events: []string{"cancel:c"},
 			Threads: map[string][]string{"a": {"lookup:u", "read:u"}, "b": {"lookup:u"}, "c": {"lookup:u"}}},
